@@ -26,6 +26,7 @@ Step(e) ==
       + F(~Panicked(e), props, e, <<"panic">>, "no panic", e.res)
       + F(e.outcome # "ok" \/ (e.other = "ok" /\ e.names = "ok"), props, e, <<"lock-left-held">>, "ok", <<e.other, e.names>>)
       + F(e.outcome # "ok" \/ e.feeds = 0, {"C20", "C16"}, e, <<"feed-goroutine-left">>, 0, e.feeds)
+      + F(e.wgone # "still", {"C14"}, e, <<"deadline-introduced-during-expiry-run-not-honoured">>, "gone", e.wgone)
       + (IF e.scen = "open1+open2" /\ e.outcome = "ok"
          THEN F(e.res["open1"] = "ok" /\ e.res["open2"] = "ok" /\ e.h1 = "ok" /\ e.h2 = "ok", {"C13"}, e,
                 <<"concurrent-opens">>, <<"ok", "ok", "ok", "ok">>, <<e.res, e.h1, e.h2, e.count>>)
